@@ -5,10 +5,13 @@
 id=$1; shift; checks=${*:-$id}
 clean=$(mktemp -d /tmp/seedclean_XXXXXX)
 rsync -a --exclude=.git --exclude='*.o' --exclude=/chibicc --exclude=/stage2 --exclude='*.exe' /repo/ $clean/ && make -s -C $clean -j16 chibicc >/dev/null 2>&1
-for n in 1 2 3; do
-  src=/tmp/wt_$id/seeded/$n; [ -f $src/patch.diff ] || src=/verif/seeded/$id-$n
+# SEEDSRC=<dir holding 1/ 2/ 3/> and SEEDOFF=<k> import a later round as <ID>-(n+k); SEEDS="4 5 6" re-evaluates stored ones
+for n in ${SEEDS:-1 2 3}; do
+  m=$((n + ${SEEDOFF:-0}))
+  src=${SEEDSRC:-/tmp/wt_$id/seeded}/$n; [ -f $src/patch.diff ] || src=/verif/seeded/$id-$m
   [ -f $src/patch.diff ] || continue
-  dst=/verif/seeded/$id-$n; mkdir -p $dst; [ $src != $dst ] && cp -r $src/. $dst/
+  dst=/verif/seeded/$id-$m; mkdir -p $dst; [ $src != $dst ] && cp -r $src/. $dst/
+  n=$m
   d=$(mktemp -d /tmp/seed_XXXXXX)
   rsync -a --exclude=.git --exclude='*.o' --exclude=/chibicc --exclude=/stage2 --exclude='*.exe' /repo/ $d/
   if ! (cd $d && patch -p1 -s --no-backup-if-mismatch < $dst/patch.diff >/dev/null 2>&1); then echo "SEED $id-$n: PATCH-DOES-NOT-APPLY"; rm -rf $d; continue; fi
